@@ -64,6 +64,10 @@ def valid_user_value(typ: str, text: str) -> bool:
         return text in ("y", "n")
     if typ == "string":
         return True
+    if any(c == "_" or c.isspace() for c in text):
+        return False  # not a number in the Kconfig sense although int()/float() would take it
+    if typ == "hex" and text[:1] in ("+", "-"):
+        return False
     if typ == "int":
         try:
             int(text, 10)
